@@ -226,7 +226,7 @@ func Adjudicate(p *Plan, o ExecOpts, viol []Violation, ev *Evidence) (*ExecOut, 
 		}
 		if f := kf.Known(v.Prop, v.Sig); f != nil {
 			out.KnownHits++
-			out.Lines = append(out.Lines, fmt.Sprintf("KNOWN-FINDING: property=%s %s [%s]", v.Prop, f.What, v.Sig))
+			out.Lines = append(out.Lines, fmt.Sprintf("KNOWN-FINDING: property=%s %s [%s]", v.Prop, shortWhat(f.What), v.Sig))
 			continue
 		}
 		sc := findScenario(p, v.Scen)
@@ -331,4 +331,14 @@ func ReplayFromFile(path string) (bool, string, error) {
 		}
 	}
 	return true, fmt.Sprintf("not reproduced: property=%s signature=%s holds on this tree for the recorded history", rf.Violation.Prop, rf.Violation.Sig), nil
+}
+
+func shortWhat(s string) string {
+	if i := strings.Index(s, ". "); i > 0 && i < 260 {
+		return s[:i+1]
+	}
+	if len(s) > 260 {
+		return s[:260] + "…"
+	}
+	return s
 }
